@@ -7,6 +7,7 @@ import (
 	z "github.com/Oudwins/zog"
 	"github.com/Oudwins/zog/conf"
 	"github.com/Oudwins/zog/zhttp"
+	"time"
 
 	"encoding/json"
 	"errors"
@@ -696,5 +697,141 @@ func likeProbe(sum *Summary) {
 			}
 		}()
 		sum.Evaluations++
+	}
+}
+
+// structInputProbe (C03): a Go STRUCT as the input record — flat, with an embedded struct, with an embedded
+// struct pointer, and the same inside a map — must give what the same record gives as a map[string]any: promoted
+// fields are fields. Fixed scenarios (the case language's struct inputs have no embedded fields).
+type probeAudit struct {
+	ID    int
+	Owner string
+}
+type probeFlat struct {
+	ID    int
+	Owner string
+	Name  string
+}
+type probeEmb struct {
+	probeAudit
+	Name string
+}
+type ProbeAuditX struct {
+	ID    int
+	Owner string
+}
+type probeEmbPtr struct {
+	*ProbeAuditX
+	Name string
+}
+
+func structInputProbe(sum *Summary) {
+	type dest struct {
+		ID    int
+		Owner string
+		Name  string
+	}
+	schema := func() *z.StructSchema {
+		return z.Struct(z.Schema{"ID": z.Int().GT(3), "Owner": z.String().Required(), "Name": z.String().Min(2)})
+	}
+	asMap := map[string]any{"ID": 7, "Owner": "ann", "Name": "main"}
+	show := func(m z.ZogIssueMap, d dest) string {
+		var keys []string
+		for k, l := range m {
+			if k != "$first" {
+				for _, e := range l {
+					keys = append(keys, k+":"+e.Code)
+				}
+			}
+		}
+		sort.Strings(keys)
+		return fmt.Sprintf("%v %+v", keys, d)
+	}
+	var dm dest
+	want := show(schema().Parse(asMap, &dm), dm)
+	inputs := []struct {
+		name string
+		in   any
+	}{
+		{"flat struct", probeFlat{7, "ann", "main"}},
+		{"pointer to flat struct", &probeFlat{7, "ann", "main"}},
+		{"embedded struct (promoted fields)", probeEmb{probeAudit{7, "ann"}, "main"}},
+		{"embedded struct pointer (promoted fields)", probeEmbPtr{&ProbeAuditX{7, "ann"}, "main"}},
+	}
+	for _, tc := range inputs {
+		func() {
+			defer func() {
+				if r := recover(); r != nil {
+					sum.addViolation("C06", Mismatch{Case: "structInputProbe: " + tc.name, Impl: fmt.Sprint("panic: ", r), What: "a struct input made Parse panic"})
+				}
+			}()
+			var d dest
+			got := show(schema().Parse(tc.in, &d), d)
+			if got != want {
+				sum.addViolation("C03", Mismatch{Case: "structInputProbe: " + tc.name, Impl: got, Model: want, What: "a Go struct given as the input record does not give what the same record gives as a map[string]any"})
+			}
+			// and as a nested record
+			type outer struct{ Rec dest }
+			var o outer
+			var om outer
+			nested := z.Struct(z.Schema{"Rec": schema()})
+			wantN := show(nested.Parse(map[string]any{"Rec": asMap}, &om), om.Rec)
+			gotN := show(nested.Parse(map[string]any{"Rec": tc.in}, &o), o.Rec)
+			if gotN != wantN {
+				sum.addViolation("C03", Mismatch{Case: "structInputProbe (nested): " + tc.name, Impl: gotN, Model: wantN, What: "a Go struct given as a nested input record does not give what the same record gives as a map[string]any"})
+			}
+		}()
+		sum.Evaluations++
+	}
+	// a struct record whose fields are all ZERO is a record of present falsy values (C04: 0, false and the zero
+	// time are present in Parse), exactly like the map holding the same zeros
+	{
+		type zrec struct {
+			Retries int
+			Verbose bool
+			Ratio   float64
+			At      time.Time
+		}
+		type zdest struct {
+			Retries int
+			Verbose bool
+			Ratio   float64
+			At      time.Time
+		}
+		zs := func() *z.StructSchema {
+			return z.Struct(z.Schema{"Retries": z.Int().Required(), "Verbose": z.Bool().Default(true), "Ratio": z.Float64().Default(0.5), "At": z.Time().Required()})
+		}
+		showZ := func(m z.ZogIssueMap, d zdest) string {
+			var keys []string
+			for k, l := range m {
+				if k != "$first" {
+					for _, e := range l {
+						keys = append(keys, k+":"+e.Code)
+					}
+				}
+			}
+			sort.Strings(keys)
+			return fmt.Sprintf("%v %+v", keys, d)
+		}
+		var dm, ds, dn, dnm zdest
+		wantZ := showZ(zs().Parse(map[string]any{"Retries": 0, "Verbose": false, "Ratio": 0.0, "At": time.Time{}}, &dm), dm)
+		gotZ := showZ(zs().Parse(zrec{}, &ds), ds)
+		if gotZ != wantZ {
+			for _, pid := range []string{"C04", "C03"} {
+				sum.addViolation(pid, Mismatch{Case: "structInputProbe: a struct record whose fields are all zero", Impl: gotZ, Model: wantZ, What: "a Go struct record of zero values is not read like the map holding the same zeros (0, false and the zero time are present values)"})
+			}
+		}
+		type zouter struct{ Limits zdest }
+		var on, onm zouter
+		nz := z.Struct(z.Schema{"Limits": zs()})
+		wantN := showZ(nz.Parse(map[string]any{"Limits": map[string]any{"Retries": 0, "Verbose": false, "Ratio": 0.0, "At": time.Time{}}}, &onm), onm.Limits)
+		gotN := showZ(nz.Parse(map[string]any{"Limits": zrec{}}, &on), on.Limits)
+		_, _ = dn, dnm
+		if gotN != wantN {
+			for _, pid := range []string{"C04", "C03"} {
+				sum.addViolation(pid, Mismatch{Case: "structInputProbe (nested): a struct record whose fields are all zero", Impl: gotN, Model: wantN, What: "a nested Go struct record of zero values is not read like the map holding the same zeros"})
+			}
+		}
+		sum.Evaluations += 2
 	}
 }
